@@ -37,9 +37,9 @@ def stmt(kind, target, select):
     return {"kind": kind, "target": T(target), "collist": None, "q": {"ctes": [], "branches": [select], "ops": []}}
 
 
-PRODUCE = ["cols2", "alias", "star", "expr", "cols3", "rev"]
-CONSUME = ["all", "subset", "renamed", "star", "expr", "unq_join", "qual_join", "star_join", "star_scalar_sub", "scalar_sub"]
-SHAPES = ["line2", "line3", "line4", "fanin", "fanout", "diamond", "create_then_insert"]
+PRODUCE = ["cols2", "alias", "star", "expr", "cols3", "rev", "via_sq", "selfref"]
+CONSUME = ["all", "subset", "renamed", "star", "expr", "unq_join", "qual_join", "star_join", "star_scalar_sub", "scalar_sub", "via_sq"]
+SHAPES = ["line2", "line3", "line4", "fanin", "fanout", "diamond", "create_then_insert", "repeat_after_redefine"]
 KINDS = ["insert", "ctas", "view"]
 META = ["none", "knows-sources", "irrelevant"]
 
@@ -51,6 +51,13 @@ def produce(pattern, kind, target, src, n0):
         return stmt(kind, target, sel([col(None, c[0]), col(None, c[1])], [base(src)])), c[:2]
     if pattern == "cols3":
         return stmt(kind, target, sel([col(None, c[0]), col(None, c[1]), col(None, c[2])], [base(src)])), c
+    if pattern == "via_sq":  # through a derived table that every such statement calls sq, with an inner column called m
+        inner = sel([col(None, c[0], "m")], [base(src)])
+        d = {"k": "derived", "q": {"ctes": [], "branches": [inner], "ops": []}, "alias": "sq"}
+        return stmt(kind, target, sel([col("sq", "m", "p" + c[0])], [d])), ["p" + c[0]]
+    if pattern == "selfref":  # incremental load: the statement also reads the table it writes
+        st = stmt("insert", target, sel([col(src, c[0]), col(src, c[1])], [base(src), base(target, "d")], "join"))
+        return st, c[:2]
     if pattern == "rev":  # columns defined in non-alphabetical order
         return stmt(kind, target, sel([col(None, c[1]), col(None, c[0])], [base(src)])), [c[1], c[0]]
     if pattern == "alias":
@@ -74,6 +81,10 @@ def consume(pattern, kind, target, srcs, names, other):
         if pattern == "expr":
             return stmt(kind, target, sel([{"e": ["arith", ["col", srcs[0], nm[0]], ["col", srcs[1], n2[0]]], "alias": "ee"}], rels, "join"))
         return stmt(kind, target, sel([col(srcs[0], nm[0]), col(srcs[1], n2[-1], "y" + n2[-1] if pattern == "renamed" else None)], rels, "join"))
+    if pattern == "via_sq":
+        inner = sel([col(None, nm[-1], "m")], [base(m)])
+        d = {"k": "derived", "q": {"ctes": [], "branches": [inner], "ops": []}, "alias": "sq"}
+        return stmt(kind, target, sel([col("sq", "m", "q" + nm[-1])], [d]))
     if pattern == "all":
         return stmt(kind, target, sel([col(None, n) for n in nm], [base(m)]))
     if pattern == "subset":
@@ -116,8 +127,16 @@ def gen_script(ch):
             prev, prev_names = tgt, refsem.output_names(st, {refsem.fq(T(prev)): prev_names} if prev_names else {}) or None
     elif shape == "create_then_insert":
         a, na = produce(pp(0), kinds(0), "m1", "s1", 1)
+        if not na or len(na) not in (2, 3):
+            a, na = produce("cols2", a["kind"], "m1", "s1", 1)  # the later INSERT must have the arity of the table
         ins, _ = produce("cols3" if na and len(na) == 3 else "cols2", "insert", "m1", "s2", 5)
         stmts += [a, ins, consume(cp(2), kinds(2), "fin", ["m1"], [na], "o1")]
+    elif shape == "repeat_after_redefine":
+        # stage defined, a view over it, stage redefined with more columns, the *same* view statement again, then a reader
+        a, na = produce("cols2", "ctas", "m1", "s1", 1)
+        view = consume("star", "view", "v1", ["m1"], [na], "o1")
+        b, nb = produce("cols3", "ctas", "m1", "s1", 1)
+        stmts += [a, view, b, view, consume(cp(4), kinds(4), "fin", ["v1"], [nb], "o2")]
     elif shape == "fanin":
         a, na = produce(pp(0), kinds(0), "m1", "s1", 1)
         b, nb = produce(pp(1), kinds(1), "m2", "s2", 5)
